@@ -141,6 +141,8 @@ def build():
         put(f"{p}.ws", ["", "   ", "\t", ""], lang)
         put(f"{p}.comments", [_comment(lang, "only a comment"), _comment(lang, "nocl")], lang)
         put(f"{p}.nonl", _wrap(lang, _fn(lang, "z_" + _ident(f"{p}.nonl"), 3), f"{p}.nonl"), lang, trailing=False)
+        # a byte-order mark directly in front of a function that starts on line 1
+        C[f"{p}.bombare"] = {"lang": lang, "bytes": b"\xef\xbb\xbf" + ("\n".join(_fn(lang, "bb_" + _ident(f"{p}.bombare"), 34)) + "\n").encode()}
         # threshold-length functions as the whole file, no trailing newline (N lines, N-1 newline characters)
         for L in (31, 61):
             put(f"{p}.bare{L}", _fn(lang, "w_" + _ident(f"{p}.bare{L}"), L), lang, trailing=False)
@@ -251,6 +253,8 @@ def build():
                         "y = (1,", "     2); z = \\", "    3", "def last_py_contdef(b): \\", "    return b"], "py")
     put("py.cookie", ["# -*- coding: utf8-unix -*-", "# Helpers for transcoding: input is bytes", "def k_py_cookie(a):", "    return a"], "py")
     put("py.cookie2", ["#!/usr/bin/env python", "# vim: set fileencoding=latin-9 :", "def k_py_cookie2(a):", "    return 'é'"], "py", enc="latin-1")
+    put("py.nestone", ["def outer_py_nestone(x):", "    y = x + 1", "    def inner_py_nestone(): return y", "", "def second_py_nestone(a):",
+                        "    if a:", "        def deep_py_nestone(): return a"], "py")
     put("py.tabs", ["def t_py_tabs(a):", "\tif a:", "\t\treturn 1", "\treturn 2"], "py")
     put("py.deflast", ["x = 1", "def d_py_deflast(a)"], "py", trailing=False)
     put("py.lambda", ["f = lambda a: (a)", "def l_py_lambda(a): return a", "g = [l_py_lambda(i) for i in (1, 2)]"], "py")
@@ -263,6 +267,9 @@ def build():
         else:
             lines = ["class K { void n0_java_deep1k() {"] + ["new Object() { void n%d_java_deep1k() {" % k for k in range(1, N)] + ["int x;"] + ["} };"] * (N - 1) + ["} }"]
         put(cid, lines, lang, steps=12_000_000 if lang == "js" else 23_000_000)
+    put("ts.iface", ["interface Shape_ts_iface {", "    area(): number;", "    scale(k: number): Shape_ts_iface;", "}", "",
+                     "abstract class Base_ts_iface {", "    abstract name(): string;", "    size(): number {", "        return 1;", "    }",
+                     "    last(): void;", "}", "declare function ext_ts_iface(a: number): void;"], "ts")
     # Java specifics
     put("java.record", ["package p;", "public record R_java_record(int a) {", "    public int twice() {", "        return a * 2;",
                         "    }", "}", "abstract class A {", "    abstract void g_java_record();", "    void h_java_record() throws java.io.IOException, RuntimeException {",
